@@ -55,6 +55,15 @@ fn targeted(rng: &mut Rng, b: &mut Vec<u8>) -> &'static str {
             let i = *rng.pick(&streams);
             let v = *rng.pick(&[0u32, 1, 63, 64, 65, 4095, 4096, 4097, 9000, 70000, 0x7FFFFFFF]);
             wr32(b, ent_off(i) + 120, v);
+            if rng.chance(1, 3) {
+                // the upper half of the 64-bit length (ignored in version 3 files, taken as it is in version 4):
+                // lengths next to u64::MAX and 2^63, where position + count no longer fits
+                wr32(b, ent_off(i) + 124, *rng.pick(&[0xFFFFFFFFu32, 0x80000000, 0x7FFFFFFF, 1]));
+                if rng.chance(1, 2) {
+                    wr32(b, ent_off(i) + 120, *rng.pick(&[0xFFFFFFFFu32, 0xFFFFFFFE, 0xFFFFF000, 0]));
+                }
+                return "stream-len-64";
+            }
             "stream-len"
         }
         4 | 5 if !streams.is_empty() => {
@@ -172,7 +181,7 @@ fn targeted(rng: &mut Rng, b: &mut Vec<u8>) -> &'static str {
 }
 
 /// one mutating call in the `api` op language, chosen from what the file shows
-fn gen_line(rng: &mut Rng, streams: &[(String, u64)], storages: &[String], open: &mut Vec<(u32, String)>, step: u64, unrestricted: bool) -> String {
+fn gen_line(rng: &mut Rng, streams: &[(String, u64)], storages: &[String], open: &mut Vec<(u32, String)>, step: u64, unrestricted: bool, extreme: bool) -> String {
     // in half of the cases a stream that a handle is bound to is not touched through another handle, an
     // overwrite or a removal; in the other half (`unrestricted`) it is: what such a handle *means* is not this
     // property's subject (C07 speaks of a handle while its stream exists, of handles to different streams),
@@ -192,6 +201,16 @@ fn gen_line(rng: &mut Rng, streams: &[(String, u64)], storages: &[String], open:
     let w = rng.below(100);
     if !open.is_empty() && w < 45 {
         let id = rng.pick(open).0;
+        if extreme && rng.chance(1, 5) {
+            // arguments at the end of the u64 range: lengths whose sector count does not fit (only values within one
+            // sector of u64::MAX: anything the library would really try to allocate exhausts the harness's memory),
+            // and the position at the very end of the stream (whatever length the file claims) before a write
+            return match rng.below(3) {
+                0 => format!("hsetlen {} {}", id, rng.pick(&[u64::MAX, u64::MAX - 1, u64::MAX - 100])),
+                1 => format!("hseekend {} 0", id),
+                _ => format!("hseekend {} -{}", id, rng.pick(&[1u64, 64, 4096])),
+            };
+        }
         return match rng.below(9) {
             0..=2 => format!("hwrite {} {}", id, hex(&pattern(*rng.pick(SIZES), step))),
             3 | 4 => format!("hsetlen {} {}", id, rng.pick(SIZES)),
@@ -257,6 +276,44 @@ fn directed_removals(image: &[u8]) -> Option<Vec<String>> {
         h.push(format!("get {}", enc("/mm")));
     }
     Some(h)
+}
+
+/// A stream whose start sector is the directory chain's (a cross-link that open does not look for: the start of
+/// a chain is pointed at by no FAT cell), in a file with a directory of many sectors: resizing that stream cuts the
+/// directory chain under the directory, and every later access to an entry beyond the cut must be an error.
+fn wide_dir_case(rng: &mut Rng) -> Option<(Vec<u8>, Vec<String>)> {
+    use std::io::Write;
+    let v4 = rng.chance(1, 3);
+    let (s, per) = if v4 { (4096usize, 32usize) } else { (512usize, 4usize) };
+    let k = if v4 { 1 + rng.below(2) as usize } else { 8 + rng.below(3) as usize };  // the chain is cut to k sectors (k*S >= 4096)
+    let n = (k + 2) * per + 1 + rng.below(per as u64) as usize;
+    let bytes = catch(move || {
+        let version = if v4 { cfb::Version::V4 } else { cfb::Version::V3 };
+        let mut c = CompoundFile::create_with_version(version, std::io::Cursor::new(Vec::new())).ok()?;
+        c.create_stream("/victim").ok()?.write_all(&vec![7u8; k * s + 700]).ok()?;
+        for i in 0..n {
+            let mut st = c.create_stream(format!("/s{:03}", i)).ok()?;
+            if i % 7 == 0 { st.write_all(&[i as u8; 80]).ok()?; }
+        }
+        c.flush().ok()?;
+        Some(c.into_inner().into_inner())
+    }).ok().flatten()?;
+    let mut b = bytes;
+    let l = layout(&b);
+    let n_ent = l.dir_sectors.len() * per;
+    let ent_off = |i: usize| (l.dir_sectors[i / per] + 1) * s + (i % per) * 128;
+    let want: Vec<u8> = "victim".encode_utf16().flat_map(|u| u.to_le_bytes()).collect();
+    let idx = (1..n_ent).find(|i| b.get(ent_off(*i)..ent_off(*i) + want.len()) == Some(&want[..]) && rd32(&b, ent_off(*i) + 64) & 0xffff == 14)?;
+    let dir_start = rd32(&b, 48);
+    wr32(&mut b, ent_off(idx) + 116, dir_start);
+    let mut h = vec!["hopen 0 ".to_string() + &enc("/victim"), format!("hsetlen 0 {}", k * s), "hclose 0".to_string()];
+    for i in (0..n).rev() {
+        if i % 3 == 0 { h.push(format!("get {}", enc(&format!("/s{:03}", i)))); }
+        h.push(format!("rm {}", enc(&format!("/s{:03}", i))));
+        if i % 11 == 0 { h.push(format!("put {} 0102", enc(&format!("/n{}", i)))); }
+    }
+    h.push("flush".to_string());
+    Some((b, h))
 }
 
 /// is this call refused for a reason C10 lists, judging by what the file shows right now?
@@ -333,7 +390,7 @@ pub fn run_case(image: Vec<u8>, seed: u64, given: Option<Vec<String>>, max_ops: 
                     };
                     let streams: Vec<(String, u64)> = listing.iter().filter(|x| x.1).map(|x| (x.0.clone(), x.2)).collect();
                     let storages: Vec<String> = listing.iter().filter(|x| !x.1 && x.0 != "/").map(|x| x.0.clone()).collect();
-                    gen_line(&mut rng, &streams, &storages, &mut open, step, seed % 2 == 1)
+                    gen_line(&mut rng, &streams, &storages, &mut open, step, seed % 2 == 1, seed % 4 == 3)
                 }
             };
             p2.lock().unwrap().push(line.clone());
@@ -392,15 +449,25 @@ pub fn campaign(seed: u64, bases: &str, count: u64, max_ops: u64, keepdir: &str)
     for k in 0..count {
         let mut b = rng.pick(&images).clone();
         let mut classes: Vec<&'static str> = Vec::new();
-        for _ in 0..(1 + rng.below(3)) {
-            classes.push(if rng.chance(1, 2) { targeted(&mut rng, &mut b) } else { corrupt(&mut rng, &mut b) });
+        let mut wide: Option<Vec<String>> = None;
+        if k % 500 == 11 {
+            if let Some((img, h)) = wide_dir_case(&mut rng) {
+                b = img;
+                wide = Some(h);
+                classes.push("stream-on-dir-chain");
+            }
+        }
+        if wide.is_none() {
+            for _ in 0..(1 + rng.below(3)) {
+                classes.push(if rng.chance(1, 2) { targeted(&mut rng, &mut b) } else { corrupt(&mut rng, &mut b) });
+            }
         }
         let case_seed = rng.next();
         // a directory in which an entry has two parents (only a weakened validation accepts it): the random history
         // rarely removes exactly the entry whose removal closes a cycle — remove every stream in turn and look every
         // name up after each removal
         let directed: Option<Vec<String>> = if classes.contains(&"dir-link-shared") { directed_removals(&b) } else { None };
-        let mut outcomes = vec![run_case(b.clone(), case_seed, None, max_ops)];
+        let mut outcomes = vec![run_case(b.clone(), case_seed, wide.clone(), max_ops)];
         if let Some(h) = directed {
             if matches!(outcomes[0], CaseResult::Fine(_)) {
                 outcomes[0] = run_case(b.clone(), case_seed, Some(h), max_ops);
@@ -597,7 +664,7 @@ pub fn lockstep(seed: u64, bases: &str, count: u64, max_ops: u64, outdir: &str, 
             let Ok(listing) = listing else { break };
             let streams: Vec<(String, u64)> = listing.iter().filter(|x| x.1).map(|x| (x.0.clone(), x.2)).collect();
             let storages: Vec<String> = listing.iter().filter(|x| !x.1 && x.0 != "/").map(|x| x.0.clone()).collect();
-            let line = gen_line(&mut rng, &streams, &storages, &mut open, step, false);
+            let line = gen_line(&mut rng, &streams, &storages, &mut open, step, false, false);
             let r = real.exec(&line);
             calls += 1;
             writeln!(ops_out, "{}", line).unwrap();
@@ -664,7 +731,7 @@ pub fn stale(seed: u64, bases: &str, count: u64, max_ops: u64, outdir: &str, lis
                 let p = rng.pick(&open).1.clone();
                 if streams.iter().any(|s| s.0 == p) { format!("rm {}", enc(&p)) } else if rng.chance(1, 2) { format!("mkdir {}", enc(&format!("/st{}", step))) } else { format!("put {} {}", enc(&format!("/ns{}", step)), hex(&pattern(*rng.pick(SIZES), step))) }
             } else {
-                gen_line(&mut rng, &streams, &storages, &mut open, step, true)
+                gen_line(&mut rng, &streams, &storages, &mut open, step, true, false)
             };
             if line.starts_with('h') && !line.starts_with("hopen") {
                 if let Some(id) = line.split(' ').nth(1).and_then(|x| x.parse::<u32>().ok()) {
